@@ -1248,19 +1248,35 @@ func (f *Frugal) validateTypedefs() error {
 				typedef.Name, typedef.Type.Name)
 		}
 	}
-	// A typedef which (transitively) aliases itself can never be resolved.
+	// A typedef which (transitively, or through the element types of a
+	// container) refers to itself can never be resolved.
+	var mentions func(t *Type, target string, seen map[string]bool) bool
+	mentions = func(t *Type, target string, seen map[string]bool) bool {
+		if t == nil {
+			return false
+		}
+		if t.IsContainer() {
+			return mentions(t.KeyType, target, seen) || mentions(t.ValueType, target, seen)
+		}
+		if t.IncludeName() != "" {
+			return false
+		}
+		typedef, ok := f.typedefIndex[t.Name]
+		if !ok {
+			return false
+		}
+		if typedef.Name == target {
+			return true
+		}
+		if seen[typedef.Name] {
+			return false
+		}
+		seen[typedef.Name] = true
+		return mentions(typedef.Type, target, seen)
+	}
 	for _, typedef := range f.Typedefs {
-		seen := map[string]bool{typedef.Name: true}
-		for next := typedef.Type; next != nil && next.IncludeName() == ""; {
-			target, ok := f.typedefIndex[next.Name]
-			if !ok {
-				break
-			}
-			if seen[target.Name] {
-				return fmt.Errorf("Invalid alias %s, circular typedef", typedef.Name)
-			}
-			seen[target.Name] = true
-			next = target.Type
+		if mentions(typedef.Type, typedef.Name, map[string]bool{}) {
+			return fmt.Errorf("Invalid alias %s, circular typedef", typedef.Name)
 		}
 	}
 	return nil
